@@ -37,6 +37,8 @@ pub enum Pattern {
     /// 200-byte frames trickling at 40 bytes (above the rate: three frames in a row, each within the time allowed per frame)
     /// or 4 bytes (below the rate) per 0.5 s
     Trickle { above: bool },
+    /// one 200-byte frame at 40 bytes per 0.5 s with a frame read rate that has no upper time limit (max_timeout 0)
+    TrickleNoMax,
     /// part of the CONNECT, then nothing (connect timeout 1 s)
     ConnectStall,
     /// the CONNECT trickles in, a few bytes every 0.6 s (each gap below the connect timeout of 1 s, the whole far above it)
@@ -120,9 +122,13 @@ async fn run_conn(c: Case) -> Verdict {
             cfg.v3.hs = crate::bed::v3::Hs3::Accept { idle_timeout: Some(0), max_send: None, session_present: false };
         }
     }
-    if matches!(c.pattern, Pattern::PartialStall | Pattern::Trickle { .. }) {
+    if matches!(c.pattern, Pattern::PartialStall | Pattern::Trickle { .. } | Pattern::TrickleNoMax) {
         cfg.v3.frame_read_rate = Some((1, 4, 16));
         cfg.v5.frame_read_rate = Some((1, 4, 16));
+        if c.pattern == Pattern::TrickleNoMax {
+            cfg.v3.frame_read_rate = Some((1, 0, 16));
+            cfg.v5.frame_read_rate = Some((1, 0, 16));
+        }
         if c.pattern == (Pattern::Trickle { above: true }) {
             // at most 3 s per frame: a frame that takes 2.5 s sees at most two expiries of the 1 s timer
             cfg.v3.frame_read_rate = Some((1, 3, 16));
@@ -381,7 +387,7 @@ async fn run_conn(c: Case) -> Verdict {
             eut.finish().await;
             Verdict::Ok(CaseInfo::nontrivial(&c).label("live-peer-busy-handler"))
         }
-        Pattern::PartialStall | Pattern::Trickle { .. } => {
+        Pattern::PartialStall | Pattern::Trickle { .. } | Pattern::TrickleNoMax => {
             let payload = vec![7u8; 200];
             let mut frame = eut.encode(&P5::Publish(Box::new(s5::Publish5 { topic: "t/a".into(), payload_len: 200, ..Default::default() })), &payload);
             if c.pattern == (Pattern::Trickle { above: true }) {
@@ -392,7 +398,7 @@ async fn run_conn(c: Case) -> Verdict {
             }
             let (step, stall) = match c.pattern {
                 Pattern::PartialStall => (10usize, true),
-                Pattern::Trickle { above: true } => (40, false),
+                Pattern::Trickle { above: true } | Pattern::TrickleNoMax => (40, false),
                 _ => (4, false),
             };
             let mut sent = 0usize;
@@ -426,6 +432,13 @@ async fn run_conn(c: Case) -> Verdict {
             let stops = app.stops();
             let read_timeout = stops.iter().any(|s| matches!(s, StopKind::Protocol(d) if d.contains("ReadTimeout")));
             match c.pattern {
+                Pattern::TrickleNoMax => {
+                    if end_at.is_some() || app.pub_enters().len() != 1 {
+                        return Verdict::Fail(Failure::new("fast-enough-peer-timed-out", format!("C20/{}/fast-enough-peer-timed-out", c.role.name()), format!("a frame delivered at 80 bytes/s (required: 16 bytes/s, no upper time limit) ended the connection at {end_at:?} / was handled {} times: {stops:?}; case {c:?}", app.pub_enters().len())));
+                    }
+                    eut.finish().await;
+                    Verdict::Ok(CaseInfo::nontrivial(&c).label("trickle-above-rate-no-time-limit"))
+                }
                 Pattern::Trickle { above: true } => {
                     // 80 bytes per second against a rate of 16 per second: each frame completes in ~2.5 s, no read timeout
                     if end_at.is_some() || app.pub_enters().len() != 3 {
@@ -543,6 +556,7 @@ pub fn all_cases(thorough: bool) -> Vec<Case> {
         }
         out.push(Case { role, source: Source::Client(10), pattern: Pattern::PartialStall });
         out.push(Case { role, source: Source::Client(10), pattern: Pattern::Trickle { above: true } });
+        out.push(Case { role, source: Source::Client(10), pattern: Pattern::TrickleNoMax });
         out.push(Case { role, source: Source::Client(10), pattern: Pattern::Trickle { above: false } });
         out.push(Case { role, source: Source::Client(10), pattern: Pattern::ConnectStall });
         out.push(Case { role, source: Source::Client(10), pattern: Pattern::ConnectTrickle });
